@@ -29,7 +29,7 @@ theorem group_run (col : Colour) (text : List Char) (htext : text ≠ []) (cells
     | cons y ys =>
       have := ih (by simp)
       simp only [List.map_cons, List.cons_append] at this ⊢
-      simp only [group, this]
+      rw [group, this]
       simp
 
 /-- a canonical chunk list is rebuilt from its cells -/
